@@ -9,7 +9,7 @@
 (***************************************************************************)
 EXTENDS Streaming, Json
 
-CONSTANTS Family,   \* "plan" | "ctor" | "rm" | "fo" | "rec" | "pool" | "brk"
+CONSTANTS Family,   \* "plan" | "ctor" | "rm" | "fo" | "rec" | "pool" | "brk" | "cdn"
           N,        \* plan: offsets 0..N-1; fo/pool: program length; rec: script length; brk: records before the probe
           K,        \* plan: at most K requested ranges; pool: per-host limit; rec: number of servers
           Tier      \* "quick" | "thorough": size of the configuration grids
@@ -26,7 +26,8 @@ EmitProg(ops) == PrintT(<<"PROGRAM", ToJson(Prog(ops))>>)
 \* plan: every request of at most K ranges over N offsets x a grid of valid configurations
 \* ===========================================================================
 PlanTMN == IF Tier = "quick" THEN {<<0, 2, 2>>, <<1, 3, 6>>, <<2, 8, 1>>}
-           ELSE {<<0, 1, 6>>, <<0, 2, 2>>, <<1, 3, 6>>, <<1, 8, 1>>, <<2, 2, 3>>, <<2, 8, 1>>, <<3, 4, 6>>}
+           ELSE IF K >= 4 THEN {<<1, 3, 6>>, <<2, 8, 1>>}
+           ELSE {<<0, 1, 6>>, <<0, 2, 2>>, <<1, 3, 6>>, <<2, 2, 3>>, <<2, 8, 1>>}
 \* quick: the top-of-u64 copies of the requests only for one configuration
 PlanCfgs == {c \in {[impl |-> i, thr |-> x[1], max |-> x[2], maxn |-> x[3], bw |-> 0, shift |-> s, lim |-> N - 1] :
                       i \in {"basic", "adv"}, x \in PlanTMN, s \in {"0", "top"}} :
@@ -138,7 +139,7 @@ RecServers(k) == SubSeq(<<[h |-> "a", https |-> TRUE, prio |-> 10], [h |-> "b", 
 RecCfgs == {[servers |-> RecServers(K), maxatt |-> m, base_ms |-> x[1], max_ms |-> x[2], jit |-> x[3],
              ros |-> <<429, 500, 502, 503, 504>>, timeout_ms |-> 5000] :
               m \in 1..(IF Tier = "quick" THEN 3 ELSE 4),
-              x \in IF Tier = "quick" THEN {<<100, 1000, "0">>, <<400, 500, "0.5">>}
+              x \in IF Tier = "quick" \/ N >= 4 THEN {<<100, 1000, "0">>, <<400, 500, "0.5">>}
                     ELSE {<<100, 1000, "0">>, <<400, 500, "0.5">>, <<0, 0, "0">>, <<300, 300, "1">>}}
 Outs == {[kind |-> "Ok", code |-> 0], [kind |-> "Timeout", code |-> 0], [kind |-> "Hang", code |-> 0],
          [kind |-> "HttpStatus", code |-> 503], [kind |-> "HttpStatus", code |-> 404], [kind |-> "HttpStatus", code |-> 429],
@@ -258,9 +259,34 @@ BrkShape ==
     IN \A n \in 0..N : (BrkReplay(s0, 1, n).reg["a"] = "O") <=> (\E j \in 1..n : tripAt(j))
 
 \* ===========================================================================
+\* cdn: K servers, every assignment of behaviours x priority patterns x {whole resource, a range}
+\* ===========================================================================
+CdnBehs == IF Tier = "quick" THEN {"ok206", "ok200", "h404", "h503", "close"}
+           ELSE {"ok206", "ok200", "h404", "h429", "h500", "h503", "close"}
+CdnPrios == IF Tier = "quick" THEN {<<10, 20, 30>>, <<20, 10, 10>>} ELSE {<<10, 20, 30>>, <<20, 10, 10>>, <<30, 20, 10>>, <<10, 10, 10>>}
+CdnNames == <<"a", "b", "c">>
+CdnInit == /\ cfg \in {[servers |-> [i \in 1..K |-> [h |-> CdnNames[i], prio |-> pr[i], beh |-> b[i]]]] : pr \in CdnPrios, b \in [1..K -> CdnBehs]}
+           /\ mst \in {<<>>, <<2, 5>>, <<30, 31>>} /\ hist = <<>>
+CdnEmit == Family = "cdn" => EmitProg(<<[op |-> "get", range |-> mst]>>)
+\* H1/H2 in their own words over the permitted outcomes: servers before the answering one all fail (or ignore the
+\* range), the answer is the wanted bytes, an error means nobody could answer with the wanted bytes for certain
+CdnWalkShape ==
+  Family = "cdn" =>
+    LET chain == CdnChain(cfg) IN
+    /\ \A i \in 1..(Len(chain) - 1) : chain[i].prio <= chain[i + 1].prio
+    /\ \A w \in {x \in CdnWalk(chain, mst, 1) : x.dev = ""} :
+         /\ \A j \in 1..(w.n - 1) : CdnFails(chain[j].beh) \/ (chain[j].beh = "ok200" /\ mst # <<>>)
+         /\ w.ok => ~CdnFails(chain[w.n].beh) /\ w.body = Wanted(mst)
+         /\ ~w.ok => \A j \in 1..Len(chain) : chain[j].beh # "ok206" /\ (chain[j].beh = "ok200" => mst # <<>>)
+    /\ \E w \in CdnWalk(chain, mst, 1) : w.dev = ""
+\* the wanted bytes are what RangePlan calls the body of the range (the resource is "byte x = x")
+CdnWantedIsBody == Family = "cdn" => (mst # <<>> => Wanted(mst) = Body(mst))
+
+\* ===========================================================================
 MCInit == CASE Family = "plan" -> PlanInit [] Family = "ctor" -> CtorInit [] Family = "rm" -> RmInit
             [] Family = "fo" -> FoInit [] Family = "rec" -> RecInit [] Family = "pool" -> PoolInit [] Family = "brk" -> BrkInit
+            [] Family = "cdn" -> CdnInit
 MCNext == CASE Family = "fo" -> FoNext [] Family = "rec" -> RecNext [] Family = "pool" -> PoolStep
             [] OTHER -> UNCHANGED vars
-Emit == PlanEmit /\ CtorEmit /\ RmEmit /\ FoEmit /\ RecEmit /\ PoolEmit /\ BrkEmit
+Emit == PlanEmit /\ CtorEmit /\ RmEmit /\ FoEmit /\ RecEmit /\ PoolEmit /\ BrkEmit /\ CdnEmit
 =============================================================================
